@@ -14,8 +14,12 @@ HAND["c11"] = [
     o_sec("multi", [o_int("x", 1), o_sec("tt", [o_str("v", "v")], F_MULTI | F_TITLE)], F_MULTI),
     o_sec("tm", [o_int("x", 1), o_sec("sub", [o_int("y", 2)]), o_sec("deep", [o_int("d", 4)], F_MULTI | F_TITLE)], F_MULTI | F_TITLE),
     o_sec("ts", [o_int("x", 1)], F_TITLE),
+    # long names: a step of a path is as long as the name is (one name is a prefix of another)
+    o_sec("L" * 70, [o_int("v", 20)]), o_sec("L" * 63, [o_int("v", 10)]), o_sec("M" * 64, [o_int("x", 1)], F_MULTI),
+    o_sec("N" * 300, [o_int("x", 1), o_sec("O" * 129, [o_int("y", 2)], F_MULTI | F_TITLE)]),
 ]
-C11_TEXT = ("multi { x = 2 tt a { } tt 'b c' { v = w } }\nmulti { }\nmulti { tt \"q|r\" { } }\n"
+C11_TEXT = ("%s { v = 21 }\n%s { x = 2 }\n%s { }\n%s { x = 3 %s t1 { y = 4 } %s '%s' { } }\n" % ("L" * 70, "M" * 64, "M" * 64, "N" * 300, "O" * 129, "O" * 129, "T" * 200) +
+            "multi { x = 2 tt a { } tt 'b c' { v = w } }\nmulti { }\nmulti { tt \"q|r\" { } }\n"
             "tm a { x = 3 deep d1 { } deep \"it's\" { d = 5 } }\ntm \"b|c\" { }\ntm 'x=y' { sub { y = 7 } }\ntm \"\" { }\ntm \"back\\\\slash\" { }\n"
             "tm 12 { }\ntm \"'\" { }\ntm \" \" { }\nsingle { mi { } mi { w = 4 } inner { z = 9 } }\nts t { x = 6 }\n")
 
